@@ -125,6 +125,8 @@ class Ctx:
         self.notes = []
         self.inconclusive = 0
         self.t0 = time.time()
+        self.wall_budget = 75 if tier == "quick" else 1500
+        self.case_timeout = 30 if tier == "quick" else 120
 
     # -- bookkeeping -------------------------------------------------------
     def case(self, case, nontrivial=False, classes=(), steps=0):
@@ -204,9 +206,18 @@ def run_hypothesis(ctx, strategy, body, max_examples, sub=None,
         if st["first_fail"] is not None and \
                 time.time() - st["first_fail"] > shrink_budget:
             return
+        if time.time() - ctx.t0 > ctx.wall_budget:
+            ctx.inconclusive += 1      # time budget hit: inconclusive, never a violation
+            return
         st["last"] = case
         try:
-            body(case)
+            with case_alarm(ctx.case_timeout):
+                body(case)
+        except CaseTimeout:
+            ctx.inconclusive += 1
+            ctx.notes.append("case exceeded %ds and was abandoned (inconclusive)"
+                             % ctx.case_timeout)
+            return
         except Violation as v:
             if st["first_fail"] is None:
                 st["first_fail"] = time.time()
@@ -231,6 +242,36 @@ def run_hypothesis(ctx, strategy, body, max_examples, sub=None,
         ctx.violation(st["lastfail"], st["msg"], sub)
         return False
     return True
+
+
+class CaseTimeout(BaseException):
+    pass
+
+
+class case_alarm:
+    """SIGALRM-based per-case time limit (main thread only): a case that runs
+    longer is abandoned and counted as inconclusive."""
+
+    def __init__(self, seconds):
+        self.seconds = seconds
+
+    def __enter__(self):
+        import signal
+        import threading
+        self.active = (self.seconds and
+                       threading.current_thread() is threading.main_thread())
+        if self.active:
+            def handler(signum, frame):
+                raise CaseTimeout()
+            self.old = signal.signal(signal.SIGALRM, handler)
+            signal.alarm(int(self.seconds))
+
+    def __exit__(self, *a):
+        import signal
+        if self.active:
+            signal.alarm(0)
+            signal.signal(signal.SIGALRM, self.old)
+        return False
 
 
 def hash_str(s):
@@ -346,7 +387,7 @@ def main(argv=None):
         results = [_shard_main(jobs[0])]
     else:
         mpctx = multiprocessing.get_context("fork")
-        with mpctx.Pool(min(nshards, 16)) as pool:
+        with mpctx.Pool(min(nshards, 16), maxtasksperchild=1) as pool:
             results = pool.map(_shard_main, jobs, chunksize=1)
 
     errors = [r["error"] for r in results if "error" in r]
